@@ -38,6 +38,11 @@ Definition ready (st : Z -> option Z) (e : entry) : option Z :=
 Definition origin (st : Z -> option Z) (e : entry) : Z :=
   if e_kind e =? 2 then 0 else match st (e_ttl e) with Some s => s | None => 0 end.
 
+(** the RTT the driver reports when it hands over entry [e] at instant [T]: processing instant minus the send instant
+    of that TTL's probe; a rogue driver (kind 2) reports an RTT unrelated to arrival order *)
+Definition reported_rtt (st : Z -> option Z) (e : entry) (T : Z) : Z :=
+  if e_kind e =? 2 then (e_delay e mod 50021) * 997 else T - origin st e.
+
 Fixpoint best (st : Z -> option Z) (pend : list entry) (idx : nat) : option (Z * nat * entry) :=
   match pend with
   | [] => None
@@ -102,7 +107,7 @@ Fixpoint prun (fuel : nat) (p : tparams) (D : Z) (T : Z) (pend : list entry) (ca
               let pend' := remove_nth i pend in
               if e_kind e =? 1 then prun fuel' p D T' pend' cancel rs acc
               else
-                let pr := mkProbe (e_ttl e) (e_ip e) (T' - origin (psent p cancel) e) (e_dest e) in
+                let pr := mkProbe (e_ttl e) (e_ip e) (reported_rtt (psent p cancel) e T') (e_dest e) in
                 if negb (valid_probe (tp_first p) (tp_last p) pr) then TError (rev (pr :: acc))
                 else
                 let cancel' := match cancel with Some c => Some c | None => if e_dest e then Some T' else None end in
@@ -155,7 +160,7 @@ Fixpoint swindow (fuel : nat) (p : tparams) (sends : list (Z * Z)) (W T : Z) (pe
               let T' := Z.max T a in
               let pend' := remove_nth i pend in
               if e_kind e =? 1 then swindow fuel' p sends W T' pend'
-              else WProbe T' (mkProbe (e_ttl e) (e_ip e) (T' - origin (lookup sends) e) (e_dest e)) pend'
+              else WProbe T' (mkProbe (e_ttl e) (e_ip e) (reported_rtt (lookup sends) e T') (e_dest e)) pend'
             else swindow fuel' p sends W R pend
         | None => swindow fuel' p sends W R pend
         end
